@@ -2445,6 +2445,13 @@ hsStateDetermined:
             fragLen = *c << 16; c++;
             fragLen += *c << 8; c++;
             fragLen += *c; c++;
+            if ((uint32) (end - c) < fragLen)
+            {
+                /* The fragment must be entirely inside this record */
+                ssl->err = SSL_ALERT_DECODE_ERROR;
+                psTraceErrr("Invalid fragment length of handshake message\n");
+                return MATRIXSSL_ERROR;
+            }
             if (fragLen != hsLen)
             {
 /*
